@@ -305,3 +305,11 @@ def run(ctx):
     ctx.guarded("C17.refuse", rule_refuse, ctx)
     ctx.guarded("C17.persist", rule_persist, ctx)
     ctx.guarded("C17.auto", rule_auto, ctx)
+    # 'the remembered key stays in place / survives restarts' needs the store's transactions (C13.commit / replace / blob), adopted
+    from . import c13
+
+    def store_rules(scratch):
+        model = c13.StoreModel(scratch)
+        c13.rule_commit_replace(scratch, model)
+        c13.rule_blob(scratch, model)
+    ctx.adopt_from("C13", [(store_rules, ())], {"C13.commit": "C17.persist", "C13.replace": "C17.persist", "C13.blob": "C17.persist"})
